@@ -81,6 +81,9 @@ def function_model(case):
     from cirbo.core.python_function import PyFunctionModel
     tt, n = case['tt'], case_n(case)
     val = {'0': False, '1': True, '*': DontCare}
+    if case.get('model') == 'pyint':
+        # a callable written with arithmetic returns the ints 0 / 1, which are equal to False / True
+        val = {'0': 0, '1': 1, '*': DontCare}
 
     def func(args):
         t = int(''.join('1' if a else '0' for a in args), 2) if args else 0
